@@ -9,8 +9,11 @@ import (
 	"bufio"
 	"fmt"
 	"os"
+	"sort"
 	"strconv"
 	"strings"
+
+	http2 "github.com/dgrr/http2"
 )
 
 func hexOrDash(b []byte) string {
@@ -55,6 +58,13 @@ func (r *runner) step(line string) (res string) {
 	}()
 	f := strings.Split(line, " ")
 	switch {
+	case f[0] == "pool.on":
+		http2.VerifPoolTrack(true)
+		return "mon pool on"
+	case f[0] == "pool.report":
+		an, ev, acq, rel := http2.VerifPoolReport()
+		sort.Strings(an)
+		return fmt.Sprintf("mon pool events=%d anomalies=%s acquired=%v released=%v", ev, strings.Join(an, "|"), acq, rel)
 	case strings.HasPrefix(f[0], "huff."):
 		return runHuff(f)
 	case strings.HasPrefix(f[0], "hpack."):
